@@ -216,7 +216,74 @@ class StmtMixin(object):
     # ------------------------------------------------------------------ control flow
     def s_If(self, st, s):
         c = self.truthy(st, self.eval(st, s.test))
-        self.branch(st, c, lambda x: self.exec_block(x, s.body), lambda x: self.exec_block(x, s.orelse))
+
+        def then(x):
+            self.refine(x, s.test, True)
+            self.exec_block(x, s.body)
+
+        def orelse(x):
+            self.refine(x, s.test, False)
+            self.exec_block(x, s.orelse)
+        self.branch(st, c, then, orelse)
+
+    def refine(self, st, test, positive):
+        """Path-sensitive refinement of static type hints for simple tests on local names."""
+        if isinstance(test, pyast.UnaryOp) and isinstance(test.op, pyast.Not):
+            return self.refine(st, test.operand, not positive)
+        if isinstance(test, pyast.BoolOp):
+            if isinstance(test.op, pyast.And) and positive or isinstance(test.op, pyast.Or) and not positive:
+                for v in test.values:
+                    self.refine(st, v, positive)
+            return
+        name = None
+        if isinstance(test, pyast.Name):
+            name = test.id
+            kind = 'truthy'
+        elif isinstance(test, pyast.Compare) and len(test.ops) == 1 and isinstance(test.left, pyast.Name) \
+                and isinstance(test.comparators[0], pyast.Constant) and test.comparators[0].value is None:
+            name = test.left.id
+            if isinstance(test.ops[0], pyast.IsNot):
+                kind = 'truthy'
+            elif isinstance(test.ops[0], pyast.Is):
+                kind = 'truthy'
+                positive = not positive
+            else:
+                return
+        elif isinstance(test, pyast.Call) and isinstance(test.func, pyast.Name) and test.func.id == 'isinstance' \
+                and len(test.args) == 2 and isinstance(test.args[0], pyast.Name):
+            name = test.args[0].id
+            kind = 'isinstance'
+        else:
+            return
+        v = st.vars.get(name)
+        if not isinstance(v, V) or v.hint is None:
+            return
+        h = v.hint
+        if kind == 'truthy':
+            if positive and h.opt:
+                st.vars[name] = V(v.t, h.with_opt(False))
+            return
+        if kind == 'isinstance' and h.kind == 'obj':
+            try:
+                cv = self.eval(State(dict(st.vars), dict(st.heap), z3.BoolVal(True)), test.args[1])
+            except EngineError:
+                return
+            classes = tuple(x.o for x in cv.items) if isinstance(cv, PyTuple) else (cv.o,)
+            if not all(isinstance(c, type) for c in classes):
+                return
+            subs = []
+            for c in h.classes:
+                subs.extend(UNIVERSE.subclasses(c))
+            if positive:
+                keep = [d for d in dict.fromkeys(subs) if issubclass(d, classes)]
+                opt = False
+            else:
+                keep = [d for d in dict.fromkeys(subs) if not issubclass(d, classes)]
+                opt = h.opt
+            if keep:
+                # minimal covering set: drop classes whose ancestor is also kept
+                mins = [d for d in keep if not any(e is not d and issubclass(d, e) for e in keep)]
+                st.vars[name] = V(v.t, TypeSpec('obj', tuple(mins), opt))
 
     def take_exits(self, start, pred):
         fr = self.frame()
